@@ -112,6 +112,82 @@ theorem builtin_parenOK : ParenOK builtinTable := by constructor <;> decide +ker
 theorem C09_builtin (e : Spec.Expr) (ts : List Tok) (h : Renders builtinTable 0 e ts) : shunt builtinTable ts = some (toPostfix e) :=
   shunt_correct builtinTable builtin_uniform builtin_parenOK e ts h
 
+/-! ### operators the user registers (`AddOperation`) -/
+
+/-- `AddOperation(alias, p, r, …)` files the operator under the lower-cased alias with exactly the declared priority … -/
+theorem C09_registered_priority (t : OpTable) (a : Bytes) (p : Nat) (r : Bool) :
+    (t.addOperation a p r).prio (OpTable.lowerAscii a) = p := by
+  simp [OpTable.addOperation, OpTable.prio]
+
+/-- … leaves every other operator's priority alone … -/
+theorem C09_registered_priority_other (t : OpTable) (a b : Bytes) (p : Nat) (r : Bool) (hb : b ≠ OpTable.lowerAscii a) :
+    (t.addOperation a p r).prio b = t.prio b := by
+  have h1 : (OpTable.lowerAscii a == b) = false := by simp [Ne.symm hb]
+  have h2 : List.find? (fun q : Bytes × Nat => q.1 == b) (t.priority.filter (fun q => q.1 != OpTable.lowerAscii a)) =
+      List.find? (fun q : Bytes × Nat => q.1 == b) t.priority := by
+    rw [List.find?_filter]
+    congr 1
+    funext q
+    cases h : q.1 == b
+    · simp
+    · have : q.1 = b := by simpa using h
+      simp [this, hb]
+  simp only [OpTable.addOperation, OpTable.prio, List.find?, h1, h2]
+
+/-- … and records the declared associativity (the registry never forgets a right-grouping entry) -/
+theorem C09_registered_assoc (t : OpTable) (a : Bytes) (p : Nat) (r : Bool) :
+    (t.addOperation a p r).isRight (OpTable.lowerAscii a) = (r || t.isRight (OpTable.lowerAscii a)) := by
+  unfold OpTable.addOperation OpTable.isRight
+  cases r <;> cases h : t.rightOp.contains (OpTable.lowerAscii a) <;> simp only [h, Bool.false_and, Bool.true_and, Bool.not_false,
+    Bool.not_true, Bool.false_eq_true, if_false, if_true, Bool.or_false, Bool.or_true, Bool.false_or, Bool.true_or]
+  simp
+
+theorem C09_registered_assoc_other (t : OpTable) (a b : Bytes) (p : Nat) (r : Bool) (hb : b ≠ OpTable.lowerAscii a) :
+    (t.addOperation a p r).isRight b = t.isRight b := by
+  unfold OpTable.addOperation OpTable.isRight
+  by_cases h : (r && !t.rightOp.contains (OpTable.lowerAscii a)) = true
+  · simp only [h, if_true, List.contains_append, List.contains_cons, List.contains_nil, Bool.or_false]
+    have : (b == OpTable.lowerAscii a) = false := by simp [hb]
+    simp [this]
+  · simp only [h]; rfl
+
+/-- **the same rules apply to registered operators**: registering an operator at a level whose operators all group the way it is
+declared to keeps the table uniform, so `C09_any_depth` holds for the extended table — every rendering of every expression tree
+over built-in *and* registered operators is converted to that tree's postfix form -/
+theorem C09_registered_uniform (t : OpTable) (hu : Uniform t) (a : Bytes) (p : Nat) (r : Bool)
+    (hlevel : ∀ b : Bytes, b ≠ OpTable.lowerAscii a → t.prio b = p → t.prio b ≠ 0 → t.isRight b = r)
+    (hold : t.isRight (OpTable.lowerAscii a) = true → r = true) : Uniform (t.addOperation a p r) := by
+  have hself : (t.addOperation a p r).isRight (OpTable.lowerAscii a) = r := by
+    rw [C09_registered_assoc]
+    cases r
+    · cases h : t.isRight (OpTable.lowerAscii a)
+      · rfl
+      · exact absurd (hold h) (by simp)
+    · rfl
+  intro x y hxy hx
+  by_cases ex : x = OpTable.lowerAscii a <;> by_cases ey : y = OpTable.lowerAscii a
+  · rw [ex, ey]
+  · rw [ex, hself, C09_registered_assoc_other t a y p r ey]
+    rw [ex, C09_registered_priority, C09_registered_priority_other t a y p r ey] at hxy
+    rw [ex, C09_registered_priority] at hx
+    exact (hlevel y ey hxy.symm (by rw [← hxy]; exact hx)).symm
+  · rw [ey, hself, C09_registered_assoc_other t a x p r ex]
+    rw [ey, C09_registered_priority, C09_registered_priority_other t a x p r ex] at hxy
+    rw [C09_registered_priority_other t a x p r ex] at hx
+    exact hlevel x ex hxy hx
+  · rw [C09_registered_assoc_other t a x p r ex, C09_registered_assoc_other t a y p r ey]
+    rw [C09_registered_priority_other t a x p r ex, C09_registered_priority_other t a y p r ey] at hxy
+    rw [C09_registered_priority_other t a x p r ex] at hx
+    exact hu x y hxy hx
+
+theorem C09_registered_parenOK (t : OpTable) (hp : ParenOK t) (a : Bytes) (p : Nat) (r : Bool) (ha : OpTable.lowerAscii a ≠ [40]) :
+    ParenOK (t.addOperation a p r) :=
+  ⟨by rw [C09_registered_priority_other t a [40] p r (Ne.symm ha)]; exact hp.1, hp.2⟩
+
+/-- e.g. a right-grouping `up` registered (in any letter case) at the level of `**`: chains group to the right -/
+example : (match rpn (builtinTable.addOperation (sb "Up") 6 true) (sb "2 up 3 up 2") with
+    | .ok r => r == [sb "2", sb "3", sb "2", sb "up", sb "up"] | _ => false) = true := by decide +kernel
+
 /-- and the postfix stack machine of `eval` computes the value of that tree: for any semantics of atoms, functions and
 operations, running the postfix form of `e` from an empty stack leaves exactly the value of `e` -/
 theorem C09_postfix_evaluates_tree {V : Type} (t : OpTable) (s : Sem V) (e : Spec.Expr) (hw : WellNamed t e) :
